@@ -45,7 +45,7 @@ def c04(tier, seed):
     files, names = harness_acq(tier, envs=("q", "a"))
     return checks.run_mirsym_property(
         "C04", tier, seed, files,
-        codes("M_NOT_ALL_HELD", "M_HELD_AFTER_ERR", "M_BLOCKING_IN_TRY", "M_CLOSURE_COUNT", "M_NOT_HELD_IN_SECTION", "M_DUP_VERDICT"),
+        codes("M_NOT_ALL_HELD", "M_HELD_AFTER_ERR", "M_BLOCKING_IN_TRY", "M_CLOSURE_COUNT", "M_NOT_HELD_IN_SECTION", "M_DUP_VERDICT", "M_SELF_WAIT"),
         assumptions=sys_assumptions, bounds=BOUNDS)
 
 
@@ -67,8 +67,8 @@ def c09(tier, seed):
     files, names = harness_acq(tier, envs=("a",), kinds=lambda sh: sh.kind == "retry" or "rt" in sh.name, only_blocking=True,
                                budget=3 if tier == "quick" else 4)
     return checks.run_mirsym_property(
-        "C09", tier, seed, files, codes("M_HOLD_AND_WAIT", "M_NOT_ALL_HELD", "M_NOT_COMPLETED"),
-        outcome_kinds=("abort", "unwound", "memory-error", "budget"),
+        "C09", tier, seed, files, codes("M_HOLD_AND_WAIT", "M_NOT_ALL_HELD", "M_NOT_COMPLETED", "M_SELF_WAIT"),
+        outcome_kinds=("abort", "unwound", "memory-error", "budget", "fatal"),
         assumptions=sys_assumptions + ["eventually-quiet environment: after at most `budget` interference events every contended lock is released and stays free"],
         bounds=dict(BOUNDS, retry_rounds="bounded by the interference budget 3 (quick) / 4 (thorough)"))
 
@@ -106,6 +106,13 @@ def c10(tier, seed):
                 "routes": list(props.ROUTE_IDS)})
 
 
+def _c07_expect(e):
+    kinds = e.split("_")[-1]
+    if e.startswith("h_dup::dup_") and (kinds.count("m") > 3 or kinds.count("r") > 3):
+        return ("9003", "9002")
+    return ("9003", "9001")
+
+
 def c07(tier, seed):
     from harness import props
     text, names = props.gen_dup(tier)
@@ -116,7 +123,7 @@ def c07(tier, seed):
         bounds={"member_list_length": "1..4 (quick) / 1..6 (thorough)", "universe": "3 mutexes + 3 rwlocks, member indices symbolic and NOT constrained to be distinct",
                 "nesting": "boxed/ref/retrying inside boxed/ref/retrying with an extra member; owned collections and poisonable wrappers referenced twice",
                 "containers": "tuples (quick); arrays and Vec additionally (thorough)"},
-        per_entry_expect=lambda e: ("9003", "9001"))
+        per_entry_expect=_c07_expect)
 
 
 def c08(tier, seed):
@@ -132,9 +139,11 @@ def c08(tier, seed):
 def c06(tier, seed):
     from harness import props
     text, names = props.gen_key(tier)
+    small = ("s_m", "s_r", "po_m", "po_r", "bx_mr", "rt_mr", "rf_mr", "ow_mr", "bxo_mr", "n_bx_ow")
+    acq_text, acq_names = props.gen_acq(tier, envs=("q",), kinds=lambda sh: sh.name in small)
     return checks.run_mirsym_property(
-        "C06", tier, seed, {"h_key.rs": text}, codes("M_KEY_MODEL", "M_NO_PANIC", "M_TRY_VERDICT", "M_CLOSURE_COUNT", "M_BAD_RELEASE"),
-        outcome_kinds=("abort", "unwound", "memory-error"),
+        "C06", tier, seed, {"h_key.rs": text, "h_acq.rs": acq_text}, codes("M_KEY_MODEL", "M_NO_PANIC", "M_TRY_VERDICT", "M_CLOSURE_COUNT", "M_BAD_RELEASE"),
+        outcome_kinds=("abort", "unwound", "memory-error", "fatal"),
         assumptions=sys_assumptions + ["reference model: one boolean per thread (key alive); a second modelled thread has its own thread-local storage (natively a real std::thread)"],
         bounds={"history_length": "3 (quick) / 4 (thorough) operations, each followed by a ThreadKey::get() probe whose result is kept or dropped by a symbolic bit",
                 "vocabulary": "get, drop, forget, lock+drop, read+unlock, lock+forget(guard), failed try_lock, try_write, scoped lent/owned, scoped lent/owned with panic, guard with panic, poisonable lock (Ok/Err) and with panic, poisonable try_lock+unlock, collection lock+unlock, collection try_lock+forget, second thread, collection scoped owned"})
@@ -143,8 +152,12 @@ def c06(tier, seed):
 def c02(tier, seed):
     from harness import props
     text, names = props.gen_data(tier)
+    # exclusion also rests on happylock never releasing a lock it does not hold (in that mode): a foreign or
+    # wrong-mode release lets another thread into somebody's critical section
+    acq_text, acq_names = props.gen_acq(tier, envs=("a",), kinds=lambda sh: not sh.name.startswith(("s_", "po_")) and sh.n() >= 2)
     return checks.run_mirsym_property(
-        "C02", tier, seed, {"h_data.rs": text}, codes("M_DATA", "M_NOT_HELD_IN_SECTION", "M_HELD_AFTER_ERR"),
+        "C02", tier, seed, {"h_data.rs": text, "h_acq.rs": acq_text},
+        codes("M_DATA", "M_NOT_HELD_IN_SECTION", "M_HELD_AFTER_ERR", "M_BAD_RELEASE", "M_NOT_ALL_HELD", "M_SELF_WAIT"),
         assumptions=sys_assumptions + [
             "mutual exclusion between threads is the raw lock's contract (lock_api); what is decided here is happylock's part: user code reaches data only while the leaves are held in the requested mode (also C04's M_NOT_HELD_IN_SECTION / M_NOT_ALL_HELD under the adversarial environment) and position i of every guard / closure argument is member i",
             "payload values are symbolic bytes; equality of what is read and what was written is decided by z3"],
